@@ -300,6 +300,24 @@ def _solve_vc(task):
     tt = 0.0
     r, dt, _, sv = _solve(eng, o, timeout)
     tt += dt
+    if r != "unsat":
+        # cheap second attempt: only the facts proved earlier in the same chain (clauses of the new
+        # state / earlier postcondition clauses) and the quantifier-free path facts - dropping
+        # hypotheses is sound, and many clauses follow from their predecessors alone
+        tm = getattr(o, "tagmap", None) or {}
+        from .engine import _has_quant
+        keep = [h for h in o.hyps if (tm.get(h.get_id()) or "").startswith(("newpost:", "new:")) or
+                (tm.get(h.get_id()) is None and not _has_quant(h))]
+        chain_only = [h for h in o.hyps if (tm.get(h.get_id()) or "").startswith(("newpost:", "new:"))]
+        import copy as _copy
+        for hs in (chain_only, keep):
+            if hs and len(hs) < len(o.hyps):
+                o2 = _copy.copy(o)
+                o2.hyps = hs
+                r2, dt, _, _ = _solve(eng, o2, min(timeout, 5000))
+                tt += dt
+                if r2 == "unsat":
+                    return (nm, True, tt, "", None)
     if r != "unsat" and not fast:
         # quantified queries are sensitive to incidental naming and load:
         # `unsat` from any configuration is a proof, so retry before giving up
@@ -346,6 +364,8 @@ def verify_one(args):
     parameter-shape cases).  Returns plain dicts."""
     name, tier, mode = args[:3]
     cases = args[3] if len(args) > 3 else None
+    if len(args) > 4 and args[4]:
+        os.environ["PYVC_INNER"] = str(args[4])
     t0 = time.time()
     try:
         import z3
@@ -516,6 +536,9 @@ def verify(targets, tier="quick", mode="normal", tags=None, jobs=16):
         else:
             work.append((t, tier, mode))
     os.environ["PYVC_INNER"] = str(max(1, min(8, 16 // max(1, len(work)))))
+    # functions with hundreds of paths get their own solver pool whatever else is running
+    work = [(w + (None,) * (4 - len(w)) + (8,)) if (w[0] in cons and cons[w[0]].ghost.get("heavy")) else w for w in work]
+    work.sort(key=lambda w: 0 if (w[0] in cons and cons[w[0]].ghost.get("heavy")) else 1)
     out = []
     with cf.ProcessPoolExecutor(max_workers=min(jobs, max(1, len(work))),
                                 mp_context=ctx) as ex:
